@@ -159,9 +159,17 @@ impl<T: Elem> Hist<T> {
                 }
             }
             Op::PushVec(n) => {
-                let v: Vec<T> = (0..*n).map(|_| self.fresh()).collect();
-                self.real.push_vec(v.clone());
-                self.model.extend(v);
+                // the argument's spare CAPACITY varies (exact, room for everything, much more): the
+                // result must depend on the elements only, never on how the vector was allocated
+                let extra = [0usize, len + *n, 2 * (len + *n) + 3, 64][(self.next as usize / 3) % 4];
+                let mut v: Vec<T> = Vec::with_capacity(*n + extra);
+                for _ in 0..*n {
+                    let e = self.fresh();
+                    v.push(e);
+                }
+                let copy: Vec<T> = v.iter().cloned().collect();
+                self.real.push_vec(v);
+                self.model.extend(copy);
             }
             Op::PopVec(n) => {
                 let a = self.real.pop_vec(*n).map(|v| Self::keys(&v));
@@ -300,9 +308,15 @@ impl<T: Elem> Hist<T> {
                 }
             }
             Op::FromVec(n) => {
-                let v: Vec<T> = (0..*n).map(|_| self.fresh()).collect();
-                self.real = PushStack::from_vec(v.clone());
-                self.model = v;
+                let extra = [0usize, 5, 64][(self.next as usize / 3) % 3];
+                let mut v: Vec<T> = Vec::with_capacity(*n + extra);
+                for _ in 0..*n {
+                    let e = self.fresh();
+                    v.push(e);
+                }
+                let copy: Vec<T> = v.iter().cloned().collect();
+                self.real = PushStack::from_vec(v);
+                self.model = copy;
             }
         }
         // full observation after the op
